@@ -246,7 +246,12 @@ func (r *FeatureLocal) ApproveOrDenyWrite(msg *api.Message, err model.ErrorType)
 		}
 	}
 
-	timer.Stop()
+	// if the timer could not be stopped, the timeout hit in the meantime and
+	// the error result has been sent, so this write may not get another result
+	if !timer.Stop() {
+		delete(r.writeApprovalReceived[ski], *msg.RequestHeader.MsgCounter)
+		return
+	}
 
 	delete(r.writeApprovalReceived[ski], *msg.RequestHeader.MsgCounter)
 
